@@ -92,6 +92,24 @@ def direct(ctx, ops, g, expect):
     ctx.cov["full_iterations_checked_on_impl"] = checked
 
 
+def between_passes():
+    """keys that pass their deadline BETWEEN two eviction passes: every scan form (plain, TYPE-filtered, every COUNT) must
+    already leave them out - and list them again once they have been re-created - whatever the last pass saw"""
+    from gen_api import NOW0, hx
+    ops = ["open a mem"]
+    now = NOW0
+    for rnd in range(3):
+        for i in range(6):
+            k = hx(b"dying%d" % i)
+            ops += [f"api Set {k} 76 0" if i % 2 == 0 else f"api SAdd {k} 61", f"api ExpireAt {k} {now + 400 + i}"]
+        ops += [f"api Set {hx(b'stay')} 76 0", f"api SAdd {hx(b'stays')} 61", "gc"]
+        scans = [f"api Scan 0 2a {cnt} {typ}" for cnt in (10, 1, 3, 100) for typ in (0, 1, 3)] + ["api Keys 2a", "api Exists " + " ".join(hx(b"dying%d" % i) for i in range(6))]
+        ops += scans + ["sleep 399"] + scans + ["sleep 3"] + scans + ["sleep 1000"] + scans + ["gc"] + scans
+        now += 1402
+    ops.append("dump")
+    return ops
+
+
 def run(ctx, proofs_ok):
     quick = ctx.tier == "quick"
     sizes = [0, 1, 2, 9, 10, 11, 100] + ([] if quick else [3000])
@@ -116,7 +134,7 @@ def run(ctx, proofs_ok):
          "events": {"gc": 0.1, "reopen": 0.03, "sleep": 0.03}},
         {"label": "the same on Pebble", "fams": ["key", "key", "hash", "set", "zset", "str"], "n": (800, 3000), "count": (1, 6), "backend": "pebble",
          "events": {"gc": 0.1, "reopen": 0.03}},
-    ])
+    ], extra=[("keys whose deadline passes between two eviction passes, seen by every scan form (deterministic clock)", between_passes(), True)])
 
 
 _run_sequential = run
